@@ -315,7 +315,8 @@ class Message:
                 "synthetic": self.synthetic,
                 "direction": self.direction.name,
                 "send_flags": int(self.send_flags),
-                "extra": self.extra,
+                # parsed messages hold a bytearray here, which LLSD notation would emit as an array of ints
+                "extra": bytes(self.extra),
                 "acks": self.acks,
             })
 
